@@ -222,7 +222,13 @@ class Ctx:
             return
         if z3.is_false(t):
             raise PathEnd("assume(False)")
-        self._add(t)
+        # conjunctions are stored conjunct by conjunct: slicing (cone of influence, linear part)
+        # works per stored entry
+        if z3.is_and(t):
+            for k in t.children():
+                self._add(k)
+        else:
+            self._add(t)
         if fact:
             self.assumed_facts += 1
             return
@@ -266,6 +272,75 @@ def free_consts(t, cache=None):
                 out.add(d.name())
             stack.extend(x.children())
     return out
+
+
+def is_nonlinear(t) -> bool:
+    """does the term contain a product of two non-constant factors (or a division by a non-constant)?"""
+    seen = set()
+    stack = [t]
+    while stack:
+        x = stack.pop()
+        i = x.get_id()
+        if i in seen:
+            continue
+        seen.add(i)
+        if z3.is_app(x):
+            k = x.decl().kind()
+            if k == z3.Z3_OP_MUL and sum(1 for a in x.children() if not (z3.is_rational_value(a) or z3.is_int_value(a))) >= 2:
+                return True
+            if k in (z3.Z3_OP_DIV, z3.Z3_OP_IDIV, z3.Z3_OP_MOD, z3.Z3_OP_REM) and not (z3.is_rational_value(x.arg(1)) or z3.is_int_value(x.arg(1))):
+                return True
+        stack.extend(x.children())
+    return False
+
+
+_NLMUL = {}
+
+
+def _nlmul(sort):
+    key = sort.name()
+    if key not in _NLMUL:
+        _NLMUL[key] = z3.Function(f"nlmul_{key}", sort, sort, sort)
+    return _NLMUL[key]
+
+
+def abstract_nonlinear(t, cache=None):
+    """replace every product of non-constant factors x*y by an uninterpreted nlmul(x, y) (arguments in
+    a canonical order).  The result is implied-by-abstraction: if the abstracted problem is unsat,
+    so is the original (every model of the original interprets nlmul as multiplication); a `sat`
+    answer means nothing."""
+    if cache is None:
+        cache = {}
+
+    def go(x):
+        i = x.get_id()
+        if i in cache:
+            return cache[i]
+        if z3.is_quantifier(x) or not z3.is_app(x) or x.num_args() == 0:
+            cache[i] = x
+            return x
+        kids = [go(c) for c in x.children()]
+        if x.decl().kind() == z3.Z3_OP_MUL:
+            consts = [k for k in kids if z3.is_rational_value(k) or z3.is_int_value(k)]
+            rest = [k for k in kids if not (z3.is_rational_value(k) or z3.is_int_value(k))]
+            if len(rest) >= 2:
+                rest.sort(key=lambda e: (str(e.decl()), e.get_id()))
+                acc = rest[0]
+                f = _nlmul(x.sort())
+                for r in rest[1:]:
+                    acc = f(acc, r)
+                for k in consts:
+                    acc = k * acc
+                cache[i] = acc
+                return acc
+        try:
+            r = x.decl()(*kids)
+        except Exception:  # pylint: disable=broad-except
+            r = x
+        cache[i] = r
+        return r
+
+    return go(t)
 
 
 def has_quant(t) -> bool:
